@@ -1178,27 +1178,64 @@ func EnclosingLoop(loops []*RangeLoop, in ssa.Instruction) *RangeLoop {
 // ---- boolean helper summaries ----
 
 var (
-	boolSums = map[*ssa.Function]*[2][]Lit{}
-	boolAlts = map[*ssa.Function]*[2][][]Lit{}
-	boolBusy = map[*ssa.Function]bool{}
+	boolSums = map[boolKey]*[2][]Lit{}
+	boolAlts = map[boolKey]*[2][][]Lit{}
+	boolBusy = map[boolKey]bool{}
 	paramTok = regexp.MustCompile(`\bp(\d+)\b`)
 )
 
 // boolSummary: for a module function with a single bool result, the literals that
 // hold on every path returning false ([0]) and on every path returning true ([1]),
 // in the callee's own frame.
-func boolSummary(g *ssa.Function) *[2][]Lit {
-	if s, ok := boolSums[g]; ok {
+type boolKey struct {
+	g   *ssa.Function
+	idx int
+}
+
+// boolCallOf: the module function whose bool result (the only one, or component idx of several) l branches on.
+func boolCallOf(l Lit) (*ssa.Call, *ssa.Function, int) {
+	var c *ssa.Call
+	idx := 0
+	switch x := l.Cond.(type) {
+	case *ssa.Call:
+		c = x
+	case *ssa.Extract:
+		cc, ok := x.Tuple.(*ssa.Call)
+		if !ok {
+			return nil, nil, 0
+		}
+		c, idx = cc, x.Index
+	default:
+		return nil, nil, 0
+	}
+	if c.Common().IsInvoke() {
+		return nil, nil, 0
+	}
+	g := StaticFn(c.Common())
+	if g == nil || !isModuleFunc(g) || len(g.Blocks) == 0 || idx >= g.Signature.Results().Len() || !isBool(g.Signature.Results().At(idx).Type()) {
+		return nil, nil, 0
+	}
+	if _, isExtract := l.Cond.(*ssa.Extract); !isExtract && g.Signature.Results().Len() != 1 {
+		return nil, nil, 0
+	}
+	return c, g, idx
+}
+
+func boolSummary(g *ssa.Function) *[2][]Lit { return boolSummaryAt(g, 0) }
+
+func boolSummaryAt(g *ssa.Function, idx int) *[2][]Lit {
+	bk := boolKey{g, idx}
+	if s, ok := boolSums[bk]; ok {
 		return s
 	}
-	if boolBusy[g] {
+	if boolBusy[bk] {
 		return nil
 	}
-	boolBusy[g] = true
-	defer delete(boolBusy, g)
+	boolBusy[bk] = true
+	defer delete(boolBusy, bk)
 	paths, err := EnumPaths(g, EnumOpts{Max: 256})
 	if err != nil {
-		boolSums[g] = nil
+		boolSums[bk] = nil
 		return nil
 	}
 	type key struct {
@@ -1225,10 +1262,10 @@ func boolSummary(g *ssa.Function) *[2][]Lit {
 		}
 	}
 	for _, pa := range paths {
-		if _, isR := pa.End.(*ssa.Return); !isR || len(pa.Ret) != 1 {
+		if _, isR := pa.End.(*ssa.Return); !isR || idx >= len(pa.Ret) {
 			continue
 		}
-		if c, isC := pa.Ret[0].(*ssa.Const); isC && c.Value != nil && c.Value.Kind() == constant.Bool {
+		if c, isC := pa.Ret[idx].(*ssa.Const); isC && c.Value != nil && c.Value.Kind() == constant.Bool {
 			cl := 0
 			if constant.BoolVal(c.Value) {
 				cl = 1
@@ -1237,7 +1274,7 @@ func boolSummary(g *ssa.Function) *[2][]Lit {
 			continue
 		}
 		for cl, pos := range []bool{false, true} {
-			l := CondLit(pa.Ret[0], pos)
+			l := CondLit(pa.Ret[idx], pos)
 			lits := append(append([]Lit(nil), pa.Lits...), l)
 			lits = append(lits, ExpandLit(l)...)
 			meet(cl, lits)
@@ -1250,8 +1287,8 @@ func boolSummary(g *ssa.Function) *[2][]Lit {
 		}
 		sort.Slice(out[cl], func(i, j int) bool { return out[cl][i].Atom < out[cl][j].Atom })
 	}
-	boolSums[g] = &out
-	boolAlts[g] = &alts
+	boolSums[bk] = &out
+	boolAlts[bk] = &alts
 	return &out
 }
 
@@ -1261,15 +1298,11 @@ func boolSummary(g *ssa.Function) *[2][]Lit {
 // arguments). A predicate extracted into a helper is thereby still seen as the
 // conjunction it stands for.
 func ExpandLit(l Lit) []Lit {
-	c, ok := l.Cond.(*ssa.Call)
-	if !ok || c.Common().IsInvoke() {
+	c, g, ridx := boolCallOf(l)
+	if c == nil {
 		return nil
 	}
-	g := StaticFn(c.Common())
-	if g == nil || !isModuleFunc(g) || len(g.Blocks) == 0 || g.Signature.Results().Len() != 1 || !isBool(g.Signature.Results().At(0).Type()) {
-		return nil
-	}
-	sum := boolSummary(g)
+	sum := boolSummaryAt(g, ridx)
 	if sum == nil {
 		return nil
 	}
@@ -1343,18 +1376,14 @@ func ExpandLitDNF(l Lit) [][]Lit {
 	if alts := errHelperAlts(l); len(alts) > 0 {
 		return alts
 	}
-	c, ok := l.Cond.(*ssa.Call)
-	if !ok || c.Common().IsInvoke() {
+	c, g, ridx := boolCallOf(l)
+	if c == nil {
 		return nil
 	}
-	g := StaticFn(c.Common())
-	if g == nil || !isModuleFunc(g) || len(g.Blocks) == 0 || g.Signature.Results().Len() != 1 || !isBool(g.Signature.Results().At(0).Type()) {
+	if boolSummaryAt(g, ridx) == nil {
 		return nil
 	}
-	if boolSummary(g) == nil {
-		return nil
-	}
-	alts := boolAlts[g]
+	alts := boolAlts[boolKey{g, ridx}]
 	if alts == nil {
 		return nil
 	}
